@@ -90,6 +90,9 @@ func (v *Value) UnmarshalNBT(tagType byte, r nbt.DecoderReader) error {
 		if length < 0 {
 			return errNegativeLength
 		}
+		if t == nbt.TagEnd && length > 0 {
+			return errors.New("dynbt: non-empty list of TAG_End")
+		}
 
 		v.list = v.list[:0]
 
